@@ -18,7 +18,10 @@ RULE = ("histories of 6-30 ops (35% preceded by a prefix that commits 2-5 disjoi
         "steers ~78% of the choices to legal ones (open in a gap or at a domain end, commit up to the next domain "
         "start, delete bounds at domain starts/ends/byte ends/mid points), the rest are conflicting opens/commits, "
         "backwards and zero-length commits, commits past a preset end, inverted preset ends, ops on closed or unknown "
-        "writers, deletes not gated by the open writers (~1.5% of ops); file size cap from {default,5,10,16,40} bytes "
+        "writers, deletes not gated by the open writers (~1.5% of ops); 40% of the deletes (when data exists) are "
+        "deletes DURING which fresh writers open/write/commit/close inside the start- and/or end-offset resolver "
+        "(before the start domain, in gaps inside the range, after it), bounds mostly inside domains so that the "
+        "resolvers run and several domains are spanned; file size cap from {default,5,10,16,40} bytes "
         "so file roll-over happens in about half of the cases. Plus, once per run, all 9^4 quadruples of "
         "{MinInt64,-5,0,1,5,10,11,MAX-1,MAX} through telem.TimeRange OverlapsWith/ContainsRange/BoundBy/"
         "ContainsStamp/Valid/MakeValid against Common/Telem.v. Non-trivial = at least one rejected op "
@@ -227,7 +230,52 @@ def gen_case(rng):
                 a, b = stamp(rng), stamp(rng)          # not gated by the open writers
                 if a > b and rng.random() < 0.7:
                     a, b = b, a
-            ops.append({"op": "delete", "a": a, "b": b})
+            dop = {"op": "delete", "a": a, "b": b}
+            if sim.dom and rng.random() < 0.40:
+                # a delete during which other writers commit (inside its offset resolvers):
+                # bounds mostly inside domains so that the resolvers are called
+                if rng.random() < 0.8:
+                    i = rng.randrange(len(sim.dom))
+                    j = rng.randrange(i, len(sim.dom))
+                    s0, e0 = sim.dom[i]
+                    s1, e1 = sim.dom[j]
+                    a = rng.choice([s0, s0 + 1, (s0 + e0) // 2, max(s0, e0 - 1)])
+                    b = rng.choice([s1, s1 + 1, (s1 + e1) // 2 + 1, max(s1, e1 - 1)])
+                    if rng.random() < 0.15:
+                        b = rng.choice([e1, min(MAXTS, e1 + 1)])
+                    if rng.random() < 0.15:
+                        a = max(0, s0 - 1)
+                a, b = max(0, min(a, MAXTS)), max(0, min(b, MAXTS))
+                dop = {"op": "deletec", "a": a, "b": b, "sops": [], "eops": []}
+                phases = rng.choice([["e"], ["e"], ["s"], ["s", "e"], ["e", "e"]])
+                pool = [0, 1, 2, 3, 6, 7, 8, 11, 13, 16, 17, 18, 22, 23, 26, 27, 28, 31, 33, 35, 41, 42, 45, 46, 48, 51,
+                        52, 55, 58, 61, 65, 70]
+                for ph in phases:
+                    free = [t for t in pool if not sim.inside(t)]
+                    if not free:
+                        break
+                    t = rng.choice(free)
+                    nx = sim.next_start(t)
+                    if nx <= t:
+                        continue
+                    e_ = min(nx, t + rng.choice([1, 2, 4, 9]))
+                    n = rng.randrange(1, 5)
+                    data = [(ctr + i) % 251 for i in range(n)]
+                    ctr += n
+                    w = nextw
+                    nextw += 1
+                    nops_ = [{"op": "open", "w": w, "start": t, "end": rng.choice([0, 0, e_])},
+                             {"op": "write", "w": w, "data": data},
+                             {"op": "commit", "w": w, "end": e_}]
+                    if rng.random() < 0.8:
+                        nops_.append({"op": "close", "w": w})
+                        sim.dead.append(w)
+                    else:
+                        sim.w[w] = {"start": t, "pe": 0, "prev": e_, "pend": n, "fs": n, "own": [t, e_]}
+                    dop["sops" if ph == "s" else "eops"] += nops_
+                    sim.dom.append([t, e_])
+                    sim.dom.sort()
+            ops.append(dop)
             nd = []
             for s, e in sim.dom:
                 if a <= s and e <= b:
@@ -282,7 +330,28 @@ def c_op(o, key):
         return "Commit %s %s %s" % (cN(o["w"]), cZ(o["end"]), cN(key))
     if k == "close":
         return "Close %s" % cN(o["w"])
+    if k == "deletec":
+        keys = key if isinstance(key, dict) else {}
+        return "DeleteC %s %s %s %s" % (
+            cZ(o["a"]), cZ(o["b"]),
+            clist([c_wop(x, keys.get(("s", i), 0)) for i, x in enumerate(o.get("sops") or [])]),
+            clist([c_wop(x, keys.get(("e", i), 0)) for i, x in enumerate(o.get("eops") or [])]))
     return "Delete %s %s" % (cZ(o["a"]), cZ(o["b"]))
+
+
+def c_wop(o, key):
+    k = o["op"]
+    if k == "open":
+        return "WOpen %s %s %s %s" % (cN(o["w"]), cZ(o["start"]), cZ(o["end"]), cN(key))
+    if k == "write":
+        return "WWrite %s %s" % (cN(o["w"]), clist([cN(b) for b in o["data"]]))
+    if k == "commit":
+        return "WCommit %s %s %s" % (cN(o["w"]), cZ(o["end"]), cN(key))
+    return "WClose %s" % cN(o["w"])
+
+
+def c_sobs(s):
+    return cpair(RES[s["cls"]], cpair(cN(s["key"]), cZ(s["wstart"]), cZ(s["wend"])), c_obs(s))
 
 
 def c_obs(s):
@@ -303,8 +372,16 @@ def harness_violation(case, r):
 def to_coq(case, r):
     steps = []
     for o, s in zip(case["ops"], r["steps"]):
-        ob = cpair(RES[s["cls"]], cpair(cN(s["key"]), cZ(s["wstart"]), cZ(s["wend"])), c_obs(s))
-        steps.append(cpair(c_op(o, s["key"]), ob))
+        nested = s.get("nested") or []
+        if o["op"] == "deletec":
+            keys = {(n["phase"], n["idx"]): n["key"] for n in nested}
+            nl = []
+            for n in nested:
+                x = (o.get("sops") if n["phase"] == "s" else o.get("eops"))[n["idx"]]
+                nl.append(cpair(c_wop(x, n["key"]), c_sobs(n)))
+            steps.append(cpair(c_op(o, keys), c_sobs(s), clist(nl)))
+        else:
+            steps.append(cpair(c_op(o, s["key"]), c_sobs(s), "[]"))
     return cpair(cpair(cN(r["nominal"]), cN(r["cap"])), clist(steps))
 
 
@@ -325,6 +402,13 @@ def histogram(case, r):
             ks.append("rollover")
         if o["op"] == "open" and o["end"] != 0:
             ks.append("preset_end")
+        if o["op"] == "deletec":
+            nested = s.get("nested") or []
+            ph = sorted(set(n["phase"] for n in nested))
+            ks.append("deletec_nested_ran=%s" % ("+".join(ph) or "none"))
+            if any(n["cls"] == "ok" and (o.get("sops") if n["phase"] == "s" else o.get("eops"))[n["idx"]]["op"] == "commit"
+                   for n in nested):
+                ks.append("commit_during_delete")
     ks.append("final_domains=%d" % min(len(r["steps"][-1].get("ptrs") or []), 6) if r["steps"] else "empty")
     ps = (r["steps"][-1].get("ptrs") or []) if r["steps"] else []
     if any(ps[i][1] == ps[i + 1][0] for i in range(len(ps) - 1)):
@@ -339,8 +423,16 @@ def neighbours(case, rng):
         del c["ops"][i]
         out.append(c)
     for i, o in enumerate(case["ops"]):
+        if o["op"] == "deletec":
+            # move the nested ops to the other resolver / drop them
+            c = json.loads(json.dumps(case))
+            c["ops"][i]["sops"], c["ops"][i]["eops"] = o.get("eops") or [], o.get("sops") or []
+            out.append(c)
+            c = json.loads(json.dumps(case))
+            c["ops"][i] = {"op": "delete", "a": o["a"], "b": o["b"]}
+            out.append(c)
         for f in ("start", "end", "a", "b"):
-            if f in o and o["op"] in ("open", "commit", "delete"):
+            if f in o and o["op"] in ("open", "commit", "delete", "deletec"):
                 for d in (-1, 1):
                     c = json.loads(json.dumps(case))
                     v = c["ops"][i][f] + d
